@@ -56,6 +56,10 @@ type aReplay struct {
 	Raw     string      `json:"raw,omitempty"`
 }
 
+// unstableDecodes is set by the stability phase when a decoded value was seen
+// to change after a later decode.
+var unstableDecodes bool
+
 type harness struct {
 	r      *ev.Run
 	mu     sync.Mutex
@@ -67,10 +71,24 @@ func (h *harness) report(sub string, cmd string, c rw.Ctx, label, id string, fs 
 	if len(fs) == 0 {
 		return
 	}
+	unstable := ""
 	for i := 0; i < 2; i++ {
-		if again := rerun(); kindsOf(again) != kindsOf(fs) {
-			h.r.Broken("verdict flipped for %s/%s pver=%d %s %s: %q vs %q", sub, cmd, c.Pver, encName(c), label, kindsOf(fs), kindsOf(again))
+		again := rerun()
+		if len(again) == 0 && !unstableDecodes {
+			h.r.Broken("verdict flipped for %s/%s pver=%d %s %s: %q vs none", sub, cmd, c.Pver, encName(c), label, kindsOf(fs))
 		}
+		// (when the stability phase has shown that decoded values change after
+		// later decodes, a verdict that comes and goes is that same defect seen
+		// from a parallel worker, not a broken harness)
+		if kindsOf(again) != kindsOf(fs) {
+			// the case fails on every run but not in the same comparisons: the
+			// decoded value itself is not stable (it shares memory with something
+			// that later decodes overwrite)
+			unstable = kindsOf(again)
+		}
+	}
+	if unstable != "" {
+		fs = append(fs, finding{kind: "unstable-value", what: fmt.Sprintf("the failing comparisons differ between runs of the same case (%q, then %q): the decoded value changes after it was returned", kindsOf(fs), unstable)})
 	}
 	rp := mkrp()
 	for _, f := range fs {
@@ -568,6 +586,9 @@ func main() {
 
 	st := bindReference(r.Broken)
 
+	if r.ReplayPath == "" {
+		stabilityPhase(r)
+	}
 	if r.ReplayPath != "" {
 		replay(r, h, tmp)
 		os.RemoveAll(tmp)
